@@ -3,6 +3,8 @@
 seeded change (scratch copy of /repo with the patch applied) and record the outcome in seeded/<id>/meta.json."""
 import json, os, subprocess, sys, glob, shutil, tempfile
 V = "/verif"
+TIERS = ("quick", "thorough") if "--thorough" in sys.argv else ("quick",)
+sys.argv = [a for a in sys.argv if a != "--thorough"]
 ids = sys.argv[1:] or sorted(os.path.basename(d) for d in glob.glob(V + "/seeded/*") if os.path.isdir(d))
 claimed = {c["property_id"] for c in json.load(open(V + "/MANIFEST.json"))["checks"]}
 rows = []
@@ -14,7 +16,7 @@ for sid in ids:
         print(sid, "SKIP (no check for %s yet)" % prop)
         continue
     res = {}
-    for tier in ("quick", "thorough"):
+    for tier in TIERS:
         scratch = tempfile.mkdtemp(prefix="seedall_")
         shutil.copytree("/repo/geomdl", scratch + "/repo/geomdl")
         p = subprocess.run(["patch", "-p1", "-s", "-i", d + "/patch.diff"], cwd=scratch + "/repo")
